@@ -65,9 +65,9 @@ if [ "${1:-}" = "replay" ]; then
       # a difference *between processes* may itself vary from process to process (hash seeds, address
       # layout): the comparison is repeated; any disagreement reproduces the violation
       for attempt in $(seq 1 12); do
-        a="$(one unopt "$w1")"; b="$(one rel "$w1")"; c="$(one optchk "$w1")"; d="$(one optchk 7)"
-        if [ "$a" = "$b" ] && [ "$b" = "$c" ] && [ "$c" = "$d" ]; then continue; fi
-        echo "unopt : $a"; echo "rel   : $b"; echo "optchk: $c"; echo "optchk: $d (second process)"; echo "  (attempt $attempt)"
+        a="$(one unopt "$w1")"; b="$(one rel "$w1")"; c="$(one optchk "$w1")"; d="$(one optchk 7)"; e="$(ASESIM_LOG=trace one optchk "$w1")"
+        if [ "$a" = "$b" ] && [ "$b" = "$c" ] && [ "$c" = "$d" ] && [ "$d" = "$e" ]; then continue; fi
+        echo "unopt : $a"; echo "rel   : $b"; echo "optchk: $c"; echo "optchk: $d (second process)"; echo "optchk: $e (log level Trace)"; echo "  (attempt $attempt)"
         echo "VIOLATION property=C16 replay=$f"; exit 1
       done
       echo "optchk: $c"; echo "replay $f: listings agree in 12 attempts"; exit 0;;
@@ -78,8 +78,9 @@ if [ "${1:-}" = "replay" ]; then
       a="$("$(exe unopt)" c16-digest --seed "$SEED" --cells-base "$k" 2>/dev/null | grep "^$k:$j ")"
       b="$("$(exe rel)" c16-digest --seed "$SEED" --cells-base "$k" 2>/dev/null | grep "^$k:$j ")"
       c="$("$(exe optchk)" c16-digest --seed "$SEED" --cells-base "$k" 2>/dev/null | grep "^$k:$j ")"
-      echo "unopt : $a"; echo "rel   : $b"; echo "optchk: $c"
-      if [ "$a" = "$b" ] && [ "$b" = "$c" ]; then echo "replay $f: listings agree"; exit 0; fi
+      t="$(ASESIM_LOG=trace "$(exe optchk)" c16-digest --seed "$SEED" --cells-base "$k" 2>/dev/null | grep "^$k:$j ")"
+      echo "unopt : $a"; echo "rel   : $b"; echo "optchk: $c"; echo "optchk (log Trace): $t"
+      if [ "$a" = "$b" ] && [ "$b" = "$c" ] && [ "$c" = "$t" ]; then echo "replay $f: listings agree"; exit 0; fi
       echo "VIOLATION property=C16 replay=$f"; exit 1;;
     asesim-c16-stress)
       build optchk || exit 2
@@ -161,11 +162,12 @@ digests unopt 0 "$NDIG" "$D/unopt.txt" "$WORKERS"
 digests rel 0 "$NDIG" "$D/rel.txt" "$WORKERS"
 digests optchk 0 "$NDIG" "$D/optchk.txt" "$WORKERS"
 digests optchk 0 "$NDIG" "$D/optchk2.txt" 7
+ASESIM_LOG=trace digests optchk 0 "$NDIG" "$D/optchktrace.txt" "$WORKERS"
 DIFF_RESULT="$(python3 - "$D" "$NDIG" "$SEED" "$OUT/replays" "$WORKERS" <<'EOF'
 import sys,json,collections
 d,n,seed,rep=sys.argv[1],int(sys.argv[2]),sys.argv[3],sys.argv[4]
 L={}
-for p in ["unopt","rel","optchk","optchk2"]:
+for p in ["unopt","rel","optchk","optchk2","optchktrace"]:
     m={}
     for line in open(f"{d}/{p}.txt"):
         i,_,rest=line.rstrip("\n").partition(" ")
@@ -205,27 +207,28 @@ fi
 # ---- 4b. configurations over a systematic space: every (field, boundary value) cell ----------
 if [ "$TIER" = "thorough" ]; then NCB=76; else NCB=20; fi
 CELLS_RESULT="clean"; CELLS_N=0
-for prof in unopt rel optchk; do
+for prof in unopt rel optchk optchktrace; do
   rm -f "$D/cells-$prof".*.txt
-  seq 0 $((NCB-1)) | xargs -P "$WORKERS" -I{} sh -c "\"$(exe $prof)\" c16-digest --seed $SEED --cells-base {} > \"$D/cells-$prof.{}.txt\" 2>/dev/null"
+  pexe="$(exe ${prof%trace})"; penv=""; [ "$prof" = optchktrace ] && penv="ASESIM_LOG=trace"
+  seq 0 $((NCB-1)) | xargs -P "$WORKERS" -I{} sh -c "env $penv \"$pexe\" c16-digest --seed $SEED --cells-base {} > \"$D/cells-$prof.{}.txt\" 2>/dev/null"
   for k in $(seq 0 $((NCB-1))); do cat "$D/cells-$prof.$k.txt"; done > "$D/cells-$prof.txt"
   rm -f "$D/cells-$prof".[0-9]*.txt
 done
 CELLS_N=$(wc -l < "$D/cells-optchk.txt")
-if ! cmp -s "$D/cells-unopt.txt" "$D/cells-rel.txt" || ! cmp -s "$D/cells-rel.txt" "$D/cells-optchk.txt"; then
+if ! cmp -s "$D/cells-unopt.txt" "$D/cells-rel.txt" || ! cmp -s "$D/cells-rel.txt" "$D/cells-optchk.txt" || ! cmp -s "$D/cells-optchk.txt" "$D/cells-optchktrace.txt"; then
   CELLS_RESULT="violated"
-  first="$(paste -d'|' "$D/cells-unopt.txt" "$D/cells-rel.txt" "$D/cells-optchk.txt" | awk -F'|' '$1!=$2 || $2!=$3 {print; exit}')"
+  first="$(paste -d'|' "$D/cells-unopt.txt" "$D/cells-rel.txt" "$D/cells-optchk.txt" "$D/cells-optchktrace.txt" | awk -F'|' '$1!=$2 || $2!=$3 || $3!=$4 {print; exit}')"
   cell="$(echo "$first" | cut -d' ' -f1)"
   R="$OUT/replays/C16-s$SEED-cell-diff-${cell/:/-}.json"
   python3 - "$R" "$SEED" "$cell" "$first" <<'EOF2'
 import json,sys
 k,j=sys.argv[3].split(":")
-u,r,o=(sys.argv[4].split("|")+["","",""])[:3]
+u,r,o,t=(sys.argv[4].split("|")+["","","",""])[:4]
 json.dump({"format":"asesim-c16-cell-diff","property":"C16","seed":int(sys.argv[2]),"base":int(k),"cell":int(j),
- "listings":{"unopt":u,"rel":r,"optchk":o},
+ "listings":{"unopt":u,"rel":r,"optchk":o,"optchk-log-trace":t},
  "expected":{"kind":"nondeterministic","signature":"C16|nondeterministic|profile-diff||observations differ between build profiles / processes"}},open(sys.argv[1],"w"),indent=1)
 EOF2
-  echo "  unopt : $(echo "$first" | cut -d'|' -f1)"; echo "  rel   : $(echo "$first" | cut -d'|' -f2)"; echo "  optchk: $(echo "$first" | cut -d'|' -f3)"
+  echo "  unopt : $(echo "$first" | cut -d'|' -f1)"; echo "  rel   : $(echo "$first" | cut -d'|' -f2)"; echo "  optchk: $(echo "$first" | cut -d'|' -f3)"; echo "  optchk (log Trace): $(echo "$first" | cut -d'|' -f4)"
   echo "VIOLATION property=C16 replay=$R"
   echo "  kind=nondeterministic: a single-field boundary value gives different observations in different build profiles (wrapping arithmetic)"
   VIOL=1
@@ -312,15 +315,15 @@ except Exception:
 d=json.loads(diff)
 e["coverage"]["extra"]={
   "1_type_send_sync":{"result":typ,"how":"cargo check of /verif/typecheck (assert_send_sync::<AsepriteFile and all borrowed views>)"},
-  "4b_configurations_cell_walk":{"result":cells,"cells_compared":int(cellsn),"bases":int(ncb),"profiles":["unopt","rel","optchk"],"what":"every (integer field, boundary value) cell of each base file; one digest line per cell per profile"},
+  "4b_configurations_cell_walk":{"result":cells,"cells_compared":int(cellsn),"bases":int(ncb),"profiles":["unopt","rel","optchk","optchk with log level Trace"],"what":"every (integer field, boundary value) cell of each base file; one digest line per cell per profile"},
   "3c_native_stress":{"result":stress,"runs":int(sruns),"threads":6,"iterations_per_thread":int(siters),"note":"free-running OS threads; sound oracle, OS-chosen interleavings (complement to the deterministic stages)"},
   "3b_miri":{"result":miri,"program_runs":int(mruns),"miri_seeds":int(mseeds),"cases_per_seed":int(mcases),"preemption_rates":rates.split(),
              "what":"2..3 free-running threads over &AsepriteFile on tiny sprites; Miri's seeded scheduler preempts inside accessors; data races / UB / result != sequential memo fail the run"},
-  "4_configurations":{"profiles":["unopt (overflow => panic)","rel (overflow => wrap)","optchk","optchk second process"],
+  "4_configurations":{"profiles":["unopt (overflow => panic)","rel (overflow => wrap)","optchk","optchk second process","optchk with the host log level at Trace"],
              "runs_compared":d.get("runs"),"mismatches":d.get("mismatches"),"distinct_digests":d.get("distinct_digests"),"outcome_classes":d.get("classes"),
              "runs_with_accessor_panics":d.get("runs_with_accessor_panics")},
 }
-e["coverage"]["evaluations"]=int(e["coverage"].get("evaluations",0))+int(d.get("runs") or 0)*4+int(mruns)+int(sruns)+3*int(cellsn)
+e["coverage"]["evaluations"]=int(e["coverage"].get("evaluations",0))+int(d.get("runs") or 0)*5+int(mruns)+int(sruns)+4*int(cellsn)
 e["violations"]=max(int(e.get("violations",0)),int(viol))
 e["wall_s"]=round(float(t1)-float(t0),1)
 json.dump(e,open(p,"w"),indent=1)
